@@ -281,18 +281,6 @@ package callbacks
 //@   min-sites 2
 //@   assert records-what-the-nested-delete-reported: arg0 == db && tagof(arg1) == nestedErrTag && boxof(arg1) == nestedErrBox [C13,C05]
 
-//@ # ---------- C12: every reference of a has-one / has-many relation is rewritten when a child is adopted ----------
-//@ # Appending a child that already exists upserts it: ON CONFLICT DO UPDATE must set every foreign-key column of
-//@ # the relation, the polymorphic type column included, or the child stays linked to an owner of another type.
-//@ func SaveAfterAssociations$1
-//@   tags C12
-//@   loop "range rel.References" invariant one-column-per-reference-so-far: defined(assignmentColumns) ==> len(assignmentColumns) == iter
-//@ site upsert-updates-every-reference-column
-//@   match call callbacks.saveAssociations
-//@   in callbacks.SaveAfterAssociations$1
-//@   min-sites 3
-//@   assert one-column-per-reference: defined(assignmentColumns) ==> len(arg5) == len(rel.References) [C12]
-
 //@ # ---------- C13: association values saved once per operation ----------
 //@ # "Each hook fires exactly once per record": a record reached twice through associations in one Create/Update
 //@ # must be saved (and run its hooks) once. The per-operation visit map remembers what was saved; the first
